@@ -1161,7 +1161,9 @@ impl WalletSim {
         let max_scanned = self.scanned.iter().next_back().copied();
         for (pool, cps) in &sets {
             // (5) nothing above the highest scanned height / truncation point
-            if let Some((id, _)) = cps.iter().find(|(id, _)| Some(*id) > max_scanned.max(Some(self.cfg.base_height))) {
+            // (the starting frontier of a batch stays checkpointed when the batch's blocks are rewound away)
+            let top = max_scanned.max(Some(self.cfg.base_height)).max(self.frontier_starts.iter().next_back().copied());
+            if let Some((id, _)) = cps.iter().find(|(id, _)| Some(*id) > top) {
                 if self.dirty_fork.is_none() {
                     return viol(ctx, owns, Violation::new("no_checkpoint_above_scanned_tip", format!("{}: checkpoint at {id} above the highest scanned height {:?}", pool.name(), max_scanned)));
                 }
